@@ -234,12 +234,17 @@ def body (st : St) (t : Tok) : Req → St × Out
     else match cert with
       | .rsa => (st', .ok "")
       | .unparsable => (st', .fault "BadInternalError")
-      | .nonRsa => (st', .crash "SecureChannel.NewSessionSignature")   -- PublicKey.(*rsa.PublicKey)
+      | .nonRsa =>
+        -- PublicKey.(*rsa.PublicKey): unchecked ⇒ panic; checked ⇒ "error creating session signature"
+        if newSessionSignatureChecked then (st', .fault "BadInternalError")
+        else (st', .crash "SecureChannel.NewSessionSignature")
   | .activateSession chanSecure sigOk =>
     match findSession st t with
     | none => (st, .sessionErr)      -- only reached when the generated guard is off
     | some s =>
-      if chanSecure && !s.certRsa then (st, .crash "SecureChannel.VerifySessionSignature")
+      if chanSecure && !s.certRsa then
+        (if verifySessionSignatureChecked then (st, .fault "BadSecurityChecksFailed")
+         else (st, .crash "SecureChannel.VerifySessionSignature"))
       else if chanSecure && !sigOk then (st, .fault "BadSecurityChecksFailed")
       else ({ st with sessions := st.sessions.map fun x => if x.token == t then { x with activated := true } else x }, .ok "")
   | .closeSession =>
